@@ -7,6 +7,9 @@ import time
 
 VERIF = os.path.dirname(os.path.dirname(os.path.abspath(__file__)))
 REPO = os.environ.get("VERIF_REPO", "/repo")
+# VERIF_SCRATCH relocates out/ and evidence/ (used by bin/run-seeded, which checks a scratch worktree while /verif/out and
+# /verif/evidence stay those of /repo)
+SCRATCH = os.environ.get("VERIF_SCRATCH", VERIF)
 
 DISCHARGED, FAILED, UNDECIDED = "discharged", "failed", "undecided"
 
@@ -36,7 +39,7 @@ class Ctx:
         self.repo = REPO
         self.verif = VERIF
         self.spec_dir = os.path.join(VERIF, "specs", pid)
-        self.out = os.path.join(VERIF, "out", pid)
+        self.out = os.path.join(SCRATCH, "out", pid)
         os.makedirs(self.out, exist_ok=True)
         for f in os.listdir(self.out):  # replay files belong to one run
             if f.endswith(".replay.json"):
@@ -183,8 +186,8 @@ def finish(ctx):
         "coverage": cov, "assumptions": ctx.assumptions,
         "wall_s": round(time.time() - ctx.t0, 2), "violations": len(violations),
     }
-    os.makedirs(os.path.join(VERIF, "evidence"), exist_ok=True)
-    with open(os.path.join(VERIF, "evidence", pid + ".json"), "w") as f:
+    os.makedirs(os.path.join(SCRATCH, "evidence"), exist_ok=True)
+    with open(os.path.join(SCRATCH, "evidence", pid + ".json"), "w") as f:
         json.dump(ev, f, indent=1)
     print("SUMMARY property=%s tier=%s obligations=%d discharged=%d failed=%d (known=%d) undecided=%d bounded=%d wall=%.1fs" % (
         pid, ctx.tier, n_ob, n_dis, len(failed), len(failed) - len(violations), len(und) + len(ctx.undecided_reasons) + len(vac_bad), len(bounded_obs), time.time() - ctx.t0))
